@@ -228,7 +228,7 @@ func authStates(ctx *engine.Ctx) {
 }
 
 type inputCase struct {
-	Kind   string `json:"kind"` // position | flip | trunc | foreign
+	Kind   string `json:"kind"` // position | flip | trunc | repeat | foreign
 	Size   int    `json:"size"`
 	Pos    int    `json:"pos"`
 	Cipher int    `json:"cipher"`
@@ -278,6 +278,23 @@ func runInputCase(ctx *engine.Ctx, ic inputCase) {
 				fail("wrote-to-unauthenticated", fmt.Sprintf("%d bytes written", c.Out.Len()))
 			}
 		}
+	case "repeat":
+		// a disabled replay history (capacity 0) must not refuse anything: the same valid
+		// opening presented N times in a row, then a fresh one, all authenticate
+		cache := service.NewReplayCache(0)
+		auth = service.NewShadowsocksStreamAuthenticator(cl, &cache, nil, nil)
+		k := keys[ic.Pos]
+		for r := 0; r <= ic.N; r++ {
+			seed := uint64(40 + ic.Pos)
+			if r == ic.N {
+				seed++
+			}
+			id, ok, _, st := authOnce(auth, k, seed, from)
+			if !ok || id != k.ID {
+				fail("configured-key-rejected", fmt.Sprintf("replay history disabled, presentation %d of the same opening: id=%q status=%q", r+1, id, st))
+				break
+			}
+		}
 	case "foreign":
 		k := world.MakeKey("foreign", world.Ciphers[ic.Cipher], fmt.Sprintf("secret-%d", ic.N)) // same secret text, other cipher (or unknown secret)
 		allowed := allowedIDs(keys, k)
@@ -309,6 +326,11 @@ func authInputs(ctx *engine.Ctx) {
 		}
 		for n := 0; n < 50; n++ {
 			cases = append(cases, inputCase{Kind: "trunc", Size: 5, Pos: pos, N: n})
+		}
+	}
+	for pos := 0; pos < 4; pos++ {
+		for n := 1; n <= 4; n++ {
+			cases = append(cases, inputCase{Kind: "repeat", Size: 5, Pos: pos, N: n})
 		}
 	}
 	for c := 0; c < 4; c++ {
